@@ -12,6 +12,22 @@ pub const VALID_KINDS: &[&str] = &[
 pub const FILESET_KINDS: &[&str] = &["move_decl", "retarget_import", "create_file", "delete_file", "add_export_star", "foreign_content", "shadow_file", "package_shadow", "case_twin"];
 pub const DAMAGE_KINDS: &[&str] = &["truncate", "drop_line", "stray_token", "unbalance", "garbage"];
 
+/// Where else a project may be checked out: short ASCII paths, and deep paths with multi-byte
+/// characters whose byte length varies with the seed (messages quote absolute file names, so what
+/// a message is at byte k depends on where the checkout lives).
+pub fn checkout_root(salt: u64) -> String {
+    match salt % 5 {
+        0 => "/home/ci/builds/4711/app".into(),
+        1 => "/srv/x".into(),
+        2 => "/p2".into(),
+        _ => format!(
+            "/home/{}{}/\u{30c9}\u{30ad}\u{30e5}\u{30e1}\u{30f3}\u{30c8}/\u{30d7}\u{30ed}\u{30b8}\u{30a7}\u{30af}\u{30c8}/\u{30af}\u{30e9}\u{30a4}\u{30a2}\u{30f3}\u{30c8}\u{5411}\u{3051}\u{8cc7}\u{6599}/\u{30d0}\u{30c3}\u{30af}\u{30a8}\u{30f3}\u{30c9}\u{30fb}\u{30b5}\u{30fc}\u{30d3}\u{30b9}/\u{691c}\u{8a3c}\u{7528}\u{30c1}\u{30a7}\u{30c3}\u{30af}\u{30a2}\u{30a6}\u{30c8}/\u{30ea}\u{30ea}\u{30fc}\u{30b9}\u{5019}\u{88dc}\u{7248}/\u{6700}\u{7d42}\u{78ba}\u{8a8d}\u{6e08}\u{307f}/\u{30bd}\u{30fc}\u{30b9}\u{30b3}\u{30fc}\u{30c9}/caf\u{e9}-\u{1f600}",
+            ["\u{4f0a}\u{85e4}", "sato", "\u{5c0f}\u{5ddd}\u{3055}\u{3093}"][((salt >> 3) % 3) as usize],
+            "x".repeat(((salt >> 5) % 4) as usize)
+        ),
+    }
+}
+
 /// One run in five uses a synthetic project (seeded type graph) instead of a corpus project.
 pub fn pick_project_owned(corpus: &[Project], rng: &mut Rng) -> Project {
     if rng.chance(1, 5) {
@@ -422,7 +438,7 @@ pub fn generate_c10(corpus: &[Project], seed: u64, index: u64, k: usize) -> Run 
     }
     // one variant builds the same project checked out somewhere else
     if k >= 6 {
-        variants[5].root = Some(["/home/ci/builds/4711/app", "/srv/x", "/p2"][rng.below(3)].to_string());
+        variants[5].root = Some(checkout_root(rng.next()));
     }
     // one pair that differs in registration order only, one pair in hash keys only
     if k >= 4 {
@@ -892,6 +908,13 @@ pub fn synthetic_project(seed: u64) -> Project {
         extra_decls.push("export type UsesPkg = { id: PkgId; meta?: PkgMeta };".into());
         extra_keys.push("UsesPkg: UsesPkg".into());
     }
+    // a script file with global declarations, pulled in by a side-effect import that sits in
+    // another module than the one that uses the globals
+    let ambient = n_files >= 2 && rng.chance(1, 6);
+    if ambient {
+        extra_decls.push("export type UsesAmbient = { price: GlobalMoney; label?: GlobalTag };".into());
+        extra_keys.push("UsesAmbient: UsesAmbient".into());
+    }
     let default_expr = n_files >= 2 && rng.chance(1, 5);
     if default_expr {
         extra_decls.push("import Def from \"./m1\";".into());
@@ -1030,6 +1053,9 @@ pub fn synthetic_project(seed: u64) -> Project {
             src.push_str(d);
             src.push('\n');
         }
+        if k == 1 && ambient {
+            src.push_str("import \"./globals\";\n");
+        }
         if k == 1 {
             // a namespace that only a qualified name can reach
             src.push_str("export namespace NsM1 { export type Inner = string; export namespace Deep { export type Leaf = number } }\n");
@@ -1084,6 +1110,9 @@ pub fn synthetic_project(seed: u64) -> Project {
         let f = rng.pick(&which).clone();
         let c = files[&f].replace('\n', "\r\n");
         files.insert(f, c);
+    }
+    if ambient {
+        files.insert("/p/globals.ts".into(), "type GlobalMoney = { amount: number; currency: string };\ninterface GlobalTag { tag: string }\n".into());
     }
     if bare_pkg {
         files.insert("/p/node_modules/shared-types/index.ts".into(), "export type PkgId = string;\nexport type PkgMeta = { createdBy: PkgId; tags: string[] };\n".into());
